@@ -1,14 +1,25 @@
 """C09 — modular and number-theoretic integer functions and scalar recodings are correct."""
 from props.bngen import hx, magnitude, signed
 from props.c01 import _cfg
+from props import c09_gcd, c09_mxp, c09_smb, c09_mod, c09_pol
+
+FAMILIES = (c09_gcd, c09_mxp, c09_smb, c09_mod, c09_pol)
+EXTRA_THEOREM_MODULES = ["RelicVerif.Props.C09Gcd", "RelicVerif.Props.C09Mxp", "RelicVerif.Props.C09Smb", "RelicVerif.Props.C09Mod", "RelicVerif.Props.C09Pol"]
 
 TRUSTED = [
     "class A/B (modelled in Model/Rec.lean and proved): bn_rec_win/slw/naf/reg/jsf — value, digit set, length, sparsity",
-    "class C (compared with the mathematical definition evaluated in Lean, not modelled): reductions (basic/Barrett/Montgomery/pseudo-Mersenne), "
-    "modular exponentiation variants, inverse, gcd and extended gcd variants (Bezout identity and gcd checked on every output), lcm, "
-    "Legendre/Jacobi, integer square root, polynomial evaluation / roots-to-coefficients, primality tests and prime generation",
+    "class A since the extension of round 2 (value-level Lean models that mirror each C loop, proved equal to the mathematical definition for all inputs, and executed "
+    "by the driver on every presented line with the model's prediction in the model column): see the per-family entries below (gcd / exponentiation / symbols and "
+    "primality / reductions and square root / polynomials); 'partial' there means: the theorem holds whenever the model returns, and the model checks on every line "
+    "what is not proved (termination / no overflow) instead of assuming it",
+    "class C (compared with the mathematical definition evaluated in Lean, not modelled): bn_mod_basic / bn_mod with three arguments (= the division of C01), "
+    "bn_is_prime_solov on composite inputs (random bases), prime generation "
+    "(bn_gen_prime_*: length, oddness and primality of the output below 2^80), operands longer than RLC_BN_DIGS (may be refused), moduli <= 0 or = 1 of bn_evl / bn_lag, "
+    "multi-digit moduli of bn_smb_jac (model executed and tied; theorem only for one-digit moduli and for the single-digit loop)",
     "primality ground truth: deterministic Miller-Rabin below 2^80 in the driver; above that only numbers with a supplied factor (composites) "
-    "or parameter primes certified in C18 are presented",
+    "or parameter primes certified in C18 / well-known primes (Mersenne, Proth with recomputed witnesses) are presented",
+    "known findings of this property (listed, not repaired; the check prints KNOWN-FINDING): C09-ext-mod-1 (bn_mod_barrt / bn_mod_pmers non-canonical for negative operands), "
+    "C09-ext-mxp-1 (bn_mxp_sim ignores the sign of the exponents); the matchers compare the observed wrong value exactly",
 ]
 ASSUMPTIONS = ["'rejects every composite presented' is decided on the presented corpus (Carmichael numbers, strong pseudoprimes, prime squares, "
                "products of close primes); it cannot be a theorem for a fixed-base test"]
@@ -194,12 +205,21 @@ def gen_lines(rng, w, cap, digs, n):
     return out
 
 
-CORPUS = ["nt_rec win 4 1", "nt_rec win 2 0", "nt_inv -1 5", "nt_smb jac 4 5", "nt_smb jac 2 f", "nt_gcd_ext basic -c 12", "nt_gcd_ext lehme -c 12", "nt_gcd_ext binar c -12", "nt_gcd basic 0 0",
+# lines of the two known findings (negative operands of Barrett / pseudo-Mersenne reduction, negative exponents of bn_mxp_sim)
+FINDING_LINES = ["nt_mod barrt -5 5", "nt_mod barrt -a 5", "nt_mod barrt -3 5", "nt_mod pmers -7 7", "nt_mod pmers -e 7", "nt_mod barrt -1 ffffffffffffffffff",
+                 "nt_mxp_sim 2 -3 5 2 7", "nt_mxp_sim 2 3 5 -2 7", "nt_mxp_sim 3 -1 3 -1 7"]
+
+CORPUS = FINDING_LINES + ["nt_rec win 4 1", "nt_rec win 2 0", "nt_inv -1 5", "nt_smb jac 4 5", "nt_smb jac 2 f", "nt_gcd_ext basic -c 12", "nt_gcd_ext lehme -c 12", "nt_gcd_ext binar c -12", "nt_gcd basic 0 0",
           "nt_gcd_ext basic 0 5", "nt_inv 3 7", "nt_mxp basic 2 -1 7", "nt_mxp slide 0 0 7", "nt_rec naf 2 0", "nt_rec win 4 1", "nt_srt 0"]
 
 
+# one oracle for every user of the nt_* ops (C08 links the same one for its sanitizer streams and boundary sweeps)
+ORACLE_DEFS = ("ORACLE_NT", "ORACLE_EXTRA2=ops_nt_mxp")
+ORACLE_SOURCES = ("oracle.c", "ops_bn.c", "ops_nt.c", "ops_nt_mxp.c")
+
+
 def _exe(ctx, cfg):
-    return ctx.oracle(cfg, defs=("ORACLE_NT",), sources=("oracle.c", "ops_bn.c", "ops_nt.c"), tag="_nt")
+    return ctx.oracle(cfg, defs=ORACLE_DEFS, sources=ORACLE_SOURCES, tag="_nt")
 
 
 def streams(ctx, scale=1):
@@ -209,6 +229,8 @@ def streams(ctx, scale=1):
         exe = _exe(ctx, cfg)
         hdr, kv = _cfg(exe)
         lines = ["cfg"] + CORPUS + gen_lines(ctx.rng, kv["w"], kv["size"], kv["digs"], n)
+        for fam in FAMILIES:
+            lines += list(fam.CORPUS) + fam.gen(ctx.rng, kv["w"], kv["size"], kv["digs"], (300 if ctx.tier == "quick" else 8000) * scale)
         res.append({"name": "nt-" + cfg, "cfg": cfg, "exe": exe, "lines": lines})
     return res
 
@@ -222,9 +244,41 @@ def replay_streams(ctx, rp):
     return [{"name": "replay", "cfg": cfg, "exe": _exe(ctx, cfg), "lines": ["cfg"] + rp.get("op_lines", [])}]
 
 
+for _fam in FAMILIES:
+    TRUSTED = TRUSTED + list(_fam.TRUSTED)
+
+
 def nontrivial(r):
     return not r["got"].startswith("err")
 
 
+def _int(t):
+    return -int(t[1:], 16) if t.startswith("-") else int(t, 16)
+
+
+def _nf(v, w):
+    n = max(1, (abs(v).bit_length() + w - 1) // w)
+    return ("-" if v < 0 else "") + "%x:u%d" % (abs(v), n)
+
+
 def matches_finding(f, r):
+    """a finding is one specific wrong value: the line is matched only if the library returned exactly that value"""
+    t = r["line"].split()
+    w = 8 if "w8" in r.get("cfg", "") else 64
+    got = r.get("got", "")
+    try:
+        if f.get("pred") == "barrt_pmers_neg_noncanonical" and t[0] == "nt_mod" and t[1] in ("barrt", "pmers"):
+            a, m = _int(t[2]), _int(t[3])
+            if not (a < 0 and m > 0):
+                return False
+            if a % m == 0 and got == _nf(m, w):                   # m instead of 0
+                return True
+            return t[1] == "barrt" and -a < m and got == _nf(a, w)   # the negative operand itself
+        if f.get("pred") == "mxp_sim_neg_exponent_sign_ignored" and t[0] == "nt_mxp_sim":
+            a, b, d, e, m = (_int(x) for x in t[1:6])
+            if not (m > 1 and m % 2 == 1 and (b < 0 or e < 0)):
+                return False
+            return got == _nf(pow(a, abs(b), m) * pow(d, abs(e), m) % m, w)
+    except (ValueError, IndexError):
+        return False
     return False
